@@ -14,6 +14,7 @@ import (
 
 func init() {
 	executors["suite"] = execSuite
+	executors["suiterec"] = execSuiteRec
 	scenarios["suite"] = genSuite
 }
 
@@ -53,6 +54,62 @@ func execSuite(a []string) (string, string) {
 	for k, s := range adv {
 		data = append(data, 0xC0, byte(k+1), s[0], 0x40|s[1], 0x80|s[2])
 	}
+	return suiteRun(prefs, fail, adv, data)
+}
+
+// suiterec <prefs> <records>: records `id,iana|-,auth,i1+i2+…|-,c1+c2+…|-` separated by `;` — standard (C0h) and OEM
+// (C1h + 3-byte IANA) records with any number of integrity / confidentiality algorithms (none = "implicitly none", 0)
+// and possibly repeated IDs; what the BMC advertises is every (auth, integrity, confidentiality) combination of each
+func execSuiteRec(a []string) (string, string) {
+	prefs := parseSuites(a[0])
+	var data []byte
+	var adv []suiteT
+	for _, rs := range strings.Split(a[1], ";") {
+		f := strings.Split(rs, ",")
+		if len(f) != 5 {
+			return "bad-op", ""
+		}
+		id, auth := byte(atoi(f[0])), byte(atoi(f[2]))
+		if f[1] == "-" {
+			data = append(data, 0xC0, id)
+		} else {
+			n := atoi(f[1])
+			data = append(data, 0xC1, id, byte(n), byte(n>>8), byte(n>>16))
+		}
+		data = append(data, auth)
+		algs := func(x string) []byte {
+			if x == "-" {
+				return nil
+			}
+			var out []byte
+			for _, v := range strings.Split(x, "+") {
+				out = append(out, byte(atoi(v)))
+			}
+			return out
+		}
+		is, cs := algs(f[3]), algs(f[4])
+		for _, i := range is {
+			data = append(data, 0x40|i)
+		}
+		for _, c := range cs {
+			data = append(data, 0x80|c)
+		}
+		if len(is) == 0 {
+			is = []byte{0}
+		}
+		if len(cs) == 0 {
+			cs = []byte{0}
+		}
+		for _, i := range is {
+			for _, c := range cs {
+				adv = append(adv, suiteT{auth, i, c})
+			}
+		}
+	}
+	return suiteRun(prefs, false, adv, data)
+}
+
+func suiteRun(prefs []suiteT, fail bool, adv []suiteT, data []byte) (string, string) {
 	o := hsOpts{user: []byte(fixedUser), pass: []byte(fixedPass), priv: 4, rm: hsEntropy, bmcPass: []byte(fixedPass)}
 	b := newSimBMC(o.bmcPass, nil)
 	discovery := false
@@ -180,6 +237,39 @@ func genSuite(g *genCtx) {
 			g.emit(Op{Class: 'P', NonTrivial: len(l) > 1, Kind: "suite", Args: []string{fmtSuites(l), fmtSuites(adv)}})
 		}
 		g.emit(Op{Class: 'P', NonTrivial: len(l) > 1, Kind: "suite", Args: []string{fmtSuites(l), "fail"}})
+	}
+	// advertisements as real BMCs make them: records listing several integrity / confidentiality algorithms (one entry
+	// per combination, all under ONE ID), OEM records, IDs repeated between records, records straddling the 16-byte pages
+	nrec := 300
+	if g.thorough() {
+		nrec = 5000
+	}
+	for n := 0; n < nrec; n++ {
+		var prefs []suiteT
+		for _, i := range g.rng.Perm(len(universe))[:g.rng.Intn(4)] {
+			prefs = append(prefs, universe[i])
+		}
+		pick := func(pool []byte) string {
+			k := g.rng.Intn(4)
+			if k == 0 {
+				return "-"
+			}
+			var out []string
+			for _, i := range g.rng.Perm(len(pool))[:k] {
+				out = append(out, itoa(int(pool[i])))
+			}
+			return strings.Join(out, "+")
+		}
+		var recs []string
+		for r := 0; r < 1+g.rng.Intn(5); r++ {
+			id := []int{1, 2, 3, 17, 0x80}[g.rng.Intn(5)] // few IDs: repeats are likely
+			iana := "-"
+			if g.rng.Intn(3) == 0 {
+				iana = itoa([]int{0, 10876, 0x012345, 674}[g.rng.Intn(4)])
+			}
+			recs = append(recs, fmt.Sprintf("%d,%s,%d,%s,%s", id, iana, []int{1, 2, 3}[g.rng.Intn(3)], pick([]byte{1, 2, 3, 4}), pick([]byte{1, 2, 3})))
+		}
+		g.emit(Op{Class: 'P', NonTrivial: len(prefs) != 1, Kind: "suiterec", Args: []string{fmtSuites(prefs), strings.Join(recs, ";")}})
 	}
 	// unsupported single preferences
 	for _, s := range []suiteT{{1, 0, 1}, {1, 1, 0}, {0, 1, 1}, {3, 4, 2}, {4, 4, 1}} {
